@@ -186,7 +186,7 @@ def lex(
         A :class:`TokenIterator` object
     """
     if isinstance(lines, str):
-        lines = lines.splitlines()
+        lines = re.split(r'\r\n|\r|\n', lines)
     if pattern is not None:
         if isinstance(pattern, str):
             regex = re.compile(pattern, flags=re.VERBOSE)
